@@ -422,6 +422,11 @@ def check(prog, res, tier):
 
     res.add(flagged_parsed_ob(prog, res, du, dfi))
 
+    # ---- C08.c each value is the content of its own bytes: nothing on the decode path decodes leniently
+    for ob in common.strict_codec_obs(res, 'C08.c', func_where(ffi), [(u_.name.split('.')[-1], u_.runs) for u_ in du.units.values()],
+                                      'element decoding'):
+        res.add(ob)
+
     # ---- C08.f sub-element tiling
     seen_f = {}
     for key, title in (('pds', 'PDS sub-elements tag(4) length(3) value(L) tile the carrier; cursor steps by 7+L'),
@@ -446,6 +451,7 @@ def check(prog, res, tier):
                 post = s1[k]
                 top = g.lin
                 starts = []
+                last_part = None
                 for e, lo, hi, open_end in src_slices(p, src, func=u.name, since=first):
                     if e.seq > last:
                         break
@@ -458,10 +464,20 @@ def check(prog, res, tier):
                         fails += need_eq0(st, lo - top, f'{norm_text(e.node)} starts at {st.canon(lo)}, previous part ended '
                                                         f'at {st.canon(top)} (gap/overlap inside a sub-element)', e.node)
                     starts.append(lo)
+                    last_part = (lo, hi)
                     if st.prove_ge0(hi - top):
                         top = hi
                 fails += need_eq0(st, post.lin - top, f'cursor after the sub-element is {st.canon(post.lin)}, parts end at '
                                                       f'{st.canon(top)}', head.node)
+                if u.name.endswith('_icc_to_dict') and last_part is not None:
+                    # the header of an ICC sub-element is its tag (one or two bytes) and ONE length byte: this library's form of
+                    # the TLV (the reference reading of C08; no encoder exists that could move with a different form)
+                    lo_, hi_ = last_part
+                    head_len = post.lin - g.lin - (hi_ - lo_)
+                    fails += need_ge0(st, Lin.const(3) - head_len,
+                                      f'an ICC sub-element takes {st.canon(head_len)} header bytes in front of its value: more than a '
+                                      f'two-byte tag and one length byte (a length byte of 0x81..0xFF is not a long-form marker here)',
+                                      head.node)
             return fails
         res.add(require_instances(u.runs.judge('C08.f', title, func_where(u.fi), 'field_pointer += ...', chk_f, rule=f'C08.f.{key}'),
                                   seen_f.get(u.name), 'a loop iteration of the sub-element walk'))
